@@ -13,6 +13,7 @@ use std::{
     task::{Context, Poll, Waker},
 };
 
+pub mod net_shim;
 pub mod tokio_shim;
 
 /// Decides which spawned task may make its next step.
